@@ -131,3 +131,68 @@ class TorchGradFlow(Contract):
                 ("dW_LA_is_a_copy_of_exactly_dLA_dW", BoolVal(snaps("dW_LA", ("dLA",)))),
                 ("predictor_optimiser_steps_on_the_projected_gradient", BoolVal(g["pstep"] == ("projected",))),
                 ("adversary_follows_the_plain_gradient_of_its_own_loss_of_this_step", BoolVal(g["astep"] == ("dLA",)))]
+
+
+class Evaluate(Contract):
+    """BackendEngine.evaluate of both engines (C19: prediction does not alter fitted state and repeats its answer; C17: predict = f(raw output)).
+    `fit` leaves the networks in TRAINING mode; a forward pass in training mode makes Dropout random and lets BatchNorm update its running statistics.
+    Postcondition: exactly one forward pass of the predictor on the given X, in evaluation mode (torch: model.eval() before it, inside torch.no_grad();
+    tensorflow: training=False), and its output is what is returned (as numpy)."""
+
+    def __init__(self, engine, cuda=False):
+        self.engine, self.cuda = engine, cuda
+        self.source = "fairlearn/adversarial/_pytorch_engine.py" if engine == "torch" else "fairlearn/adversarial/_tensorflow_engine.py"
+        self.function = "PytorchEngine.evaluate" if engine == "torch" else "TensorflowEngine.evaluate"
+        self.variant = f"[cuda={cuda}]" if engine == "torch" else ""
+
+    def params(self, eng, st):
+        self.X = T("data", name="X", chain=())
+        st.env.update({"self": Obj("Engine", {"predictor_model": T("predictor_model"), "cuda": self.cuda, "device": T("device")}), "X": self.X})
+        st.ghost.update({"mode": "train", "no_grad": False, "forward": ()})
+
+    def on_name(self, eng, st, name):
+        if name in ("torch", "tensorflow"):
+            return Abstract("module", name=name, alias=name)
+        return NotImplemented
+
+    def on_call(self, eng, st, node, name, recv, args, kwargs):
+        tag = recv.tag if isinstance(recv, Abstract) else None
+        if name == "eval" and tag == "predictor_model":
+            st.ghost["mode"] = "eval"
+            return None
+        if name == "train" and tag == "predictor_model":
+            st.ghost["mode"] = "train"
+            return None
+        if name == "torch.from_numpy" and args and isinstance(args[0], Abstract) and args[0].tag == "data":
+            return args[0]
+        if name in ("float", "to", "detach", "cpu") and tag in ("data", "output"):
+            return recv
+        if name == "numpy" and tag == "output":
+            return T("numpy_output", of=recv)
+        if name == "torch.no_grad":
+            return T("no_grad")
+        if name == "$enter" and tag == "no_grad":
+            st.ghost["no_grad"] = True
+            return recv
+        if name == "$exit" and tag == "no_grad":
+            st.ghost["no_grad"] = False
+            return None
+        if name == "$call" and tag == "predictor_model":
+            mode = st.ghost["mode"]
+            if "training" in kwargs:
+                mode = "train" if kwargs["training"] is not False else "eval"
+            elif self.engine == "tf":
+                mode = "default"
+            st.ghost["forward"] = st.ghost["forward"] + ((mode, st.ghost["no_grad"] or self.engine == "tf", args[0] if len(args) == 1 else None),)
+            return T("output", k=len(st.ghost["forward"]) - 1)
+        return NotImplemented
+
+    def post(self, eng, st, status, value):
+        if status != "return":
+            return [("returns_normally", BoolVal(False))]
+        fw = st.ghost["forward"]
+        one = len(fw) == 1
+        return [("exactly_one_forward_pass_on_the_given_X", BoolVal(one and fw[0][2] is self.X)),
+                ("forward_pass_runs_in_evaluation_mode", BoolVal(one and fw[0][0] == "eval")),
+                ("forward_pass_does_not_track_gradients", BoolVal(one and bool(fw[0][1]))),
+                ("returns_the_output_of_that_pass", BoolVal(one and isinstance(value, Abstract) and value.tag == "numpy_output" and value.of.k == 0))]
